@@ -19,7 +19,7 @@ META = dict(
           "ground-truth annotator's units shifted by one pivot, wrapped by the continuum's length exactly when start + pivot exceeds the upper "
           "bound; pivots lie within the bounds, are pairwise >= avg_len/2 apart while the available list is non-empty, and integral in int mode.",
     trusted="z3; RNG stub contract (uniform in [a,b), choice returns an element of non-zero weight); real arithmetic; numpy's generators themselves",
-    bounds=dict(quick="_remove_pivot_segment: 1..3 segments; sampler: references (1,1),(2,1),(1,1,1) with ground truth = all or 2 of 3, float and int pivots",
+    bounds=dict(quick="_remove_pivot_segment: 1..3 segments; sampler: references (1,1),(2,1),(1,1,1) with ground truth = all or 2 of 3, float and int pivots; references with a unit-less annotator: (1,0) with every annotator, (1,0,1) with an explicit ground truth naming the unit-less one",
                 thorough="+ references (2,2),(2,1,1); 3 sampled annotators x 2 units"),
     outside="distribution of the pivots (uniformity); references with > 2 units per annotator; > 3 ground-truth annotators",
     stubs=["np.random.uniform/choice = fresh symbolic draws under their contract", "int() = truncation toward zero on symbolic reals"],
@@ -37,6 +37,8 @@ def configs(tier):
         out.append(dict(key=f"remove_pivot_segment,segments={k}", kind="rps", k=k, cost=5 ** k))
     refs = [((1, 1), None), ((2, 1), None), ((1, 1, 1), [0, 2])]
     out.append(dict(key="sampler,ref=(1, 0),gt=None,float_pivot", kind="sampler", sizes=[1, 0], gt=None, pivot="float_pivot", draws=9, cost=300))     # an annotator without units + ([((1, 1, 1), None)] if tier == "thorough" else [])
+    # an EXPLICIT ground truth naming an annotator who has no unit: the sample still has one annotator per ground-truth annotator
+    out.append(dict(key="sampler,ref=(1, 0, 1),gt=[0, 1],float_pivot", kind="sampler", sizes=[1, 0, 1], gt=[0, 1], pivot="float_pivot", draws=9, cost=300))
     if tier == "thorough":
         refs += [((2, 2), None), ((2, 1, 1), None), ((2, 1, 1), [0, 1]), ((2, 2, 1), [1, 2])]
     out.append(dict(key="sampler,re-initialised,ref=(1, 1, 1),gt=[0, 2],float_pivot", kind="sampler", sizes=[1, 1, 1], gt=[0, 2], pivot="float_pivot", reinit=True, cost=500))
